@@ -495,7 +495,7 @@ Qed.
 Lemma pl_stop : forall f acc tol maxit x l0 q r lam,
   Capacity.vec_max (Capacity.mat_vec acc x) = lam ->
   ((if 0 <? l0 then abs (lam - l0) / l0 else 0) <? tol)%float = true ->
-  Nat.ltb maxit (length (lam :: q)) = false ->
+  Nat.ltb maxit (length (q ++ [lam])) = false ->
   Capacity.power_loop (S f) acc tol maxit x (Some l0) q r = Some ([lam], rev (lam :: r)).
 Proof.
   intros f acc tol maxit x l0 q r lam Hl Hrel Hover.
@@ -522,7 +522,7 @@ Proof.
   - reflexivity.
   - rewrite Hmv. exact Hvm.
   - rewrite (rel_zero d Hd). exact Htol.
-  - cbn [length]. apply Nat.ltb_ge. lia.
+  - cbn [length app]. apply Nat.ltb_ge. lia.
 Qed.
 
 Print Assumptions walks_nonneg.
